@@ -116,7 +116,11 @@ def sequence_main():
 def main():
     chk = common.Check('C16')
     import msg_common as M
-    proved = chk.prove('I18n.Props.C16', generated=('msg', 'unicode', 'tagregistry'))
+    proved = chk.prove('I18n.Props.C16', generated=('msg', 'unicode', 'tagregistry', 'msgchk'), extra_targets=())
+    # the tie by translation: _check_message_flags regenerated from the current lib/check/__init__.py and proved equal to the model (Props/C16Tie.lean)
+    tie_ok = common.prove_tie(chk, 'I18n.Props.C16Tie', ('msgchk',),
+                              'Checker._check_message_flags regenerated from the current lib/check/__init__.py is no longer proved equal to '
+                              'Msg.checkMessageFlags (generated_check_message_flags_eq_model and its corollaries)')
     problems = ' '.join(chk.lean.problems)
     driver_ok = os.path.exists(common.driver_path()) and not any('untranslatable' in s for s in chk.lean.translation.values()) \
         and 'Driver' not in problems and 'I18n.Model' not in problems and 'I18n.Generated' not in problems
@@ -167,7 +171,11 @@ def main():
         # _check_message_flags alone, one entry per line (returned info + tags)
         flag_entries = [e for _, es in cases[:len(cases) // 2] for e in es if e.flags][: (60000 if big else 8000)]
         flag_entries += [G.E('m', msgid_plural=rng.choice([None, 'ms']), msgstr_plural={}, flags=G.gen_flags(rng, fmts)) for _ in range((30000 if big else 4000) * boost)]
-        chk.stream('check-message-flags', [M.flags_line(e) for e in flag_entries], [M.run_flags_impl(e) for e in flag_entries])
+        flag_lines, flag_outs = [M.flags_line(e) for e in flag_entries], [M.run_flags_impl(e) for e in flag_entries]
+        chk.stream('check-message-flags', flag_lines, flag_outs)
+        # the same through the regenerated method (an exception loses the emissions before it: `err crash`)
+        chk.stream('check-message-flags-generated', [l.replace('msg flags ', 'msg gflags ', 1) for l in flag_lines],
+                   ['err crash' if '!' in o else o for o in flag_outs])
         # the hand-modelled regexes
         k = (20000 if big else 1500) * boost
         for name, gen, impl in [('unusual', G.unusual_strings, M.impl_unusual), ('marker', G.marker_strings, M.impl_marker),
@@ -346,6 +354,9 @@ def main():
         explanation=EXPLANATION)
 
 EXPLANATION = (
+    'TIE BY TRANSLATION (Props/C16Tie.lean): Checker._check_message_flags is regenerated from the current source on every run (msgchk2lean.py) and proved equal, for all '
+    'entries, to Msg.checkMessageFlags (generated_check_message_flags_eq_model, live_env_is_source, message_flags_eq_generated, check_message_flags_total_generated); the '
+    'regenerated method also runs against the real code in the check-message-flags-generated stream. check_messages itself is not translated (correspondence only). '
     'Proved in Lean for ALL entry lists, contexts and sane environments (Props/C16.lean): message_tags_eq / check_messages_eq (the imperative model of check_messages with its '
     'accumulators msgid_counter and found_unusual_characters, of _check_message_flags and of the XML gate = the rule set Spec.MessageRules, per entry and file-level, with extras and order), '
     'message_flags_eq, trace_at, and one theorem per tag read off the rule set: duplicate_message_definition_iff, duplicate_message_definition_file_iff, empty_file_iff / empty_file_po_iff, translation_in_template_iff, '
